@@ -36,11 +36,11 @@ pub struct C05 {
     pub w: u8,
     pub shape: Shape,
     /// virtual processing time of item i (ticks)
-    pub fn_delay: Vec<u16>,
+    pub fn_delay: Vec<u32>,
     /// virtual time the upstream needs to hand out item i (the ticket lock is held meanwhile)
-    pub src_delay: Vec<u16>,
+    pub src_delay: Vec<u32>,
     /// consumer stall after receiving item i
-    pub stall: Vec<u16>,
+    pub stall: Vec<u32>,
 }
 
 pub fn f_val(x: u64) -> u64 {
@@ -83,7 +83,7 @@ fn inference_val(item: u64, window: u64, ids: &[u32]) -> u64 {
 pub struct Src {
     pub next: usize,
     pub n: usize,
-    pub delay: Arc<Vec<u16>>,
+    pub delay: Arc<Vec<u32>>,
 }
 
 impl Iterator for Src {
@@ -104,14 +104,19 @@ impl Iterator for Src {
     }
 }
 
-fn delays(rng: &mut Rng, n: usize) -> Vec<u16> {
-    let kind = rng.below(7);
+fn delays(rng: &mut Rng, n: usize) -> Vec<u32> {
+    let kind = rng.below(8);
+    // one item (or pause) that takes seconds of virtual time: anything that waits with a
+    // timeout for its turn will see the timeout fire
+    let long_at = rng.below(n.max(1) as u64) as usize;
+    // 1.2 s .. 4 s mostly, sometimes 8 s .. 90 s (typical values of time-outs people choose)
+    let long = if rng.chance(0.7) { rng.range(120_000, 400_000) as u32 } else { rng.range(800_000, 9_000_000) as u32 };
     (0..n)
         .map(|i| match kind {
             0 => 0,
             1 => 3,
-            2 => (i as u16) % 7,                       // increasing ramps
-            3 => 12u16.saturating_sub((i as u16) % 12), // decreasing
+            2 => (i as u32) % 7,                       // increasing ramps
+            3 => 12u32.saturating_sub((i as u32) % 12), // decreasing
             4 => {
                 if i % 5 == 1 {
                     40
@@ -119,10 +124,17 @@ fn delays(rng: &mut Rng, n: usize) -> Vec<u16> {
                     0
                 }
             } // stragglers
-            5 => rng.below(20) as u16,
-            _ => {
+            5 => rng.below(20) as u32,
+            6 => {
                 if rng.chance(0.1) {
-                    rng.range(20, 80) as u16
+                    rng.range(20, 80) as u32
+                } else {
+                    0
+                }
+            }
+            _ => {
+                if i == long_at {
+                    long
                 } else {
                     0
                 }
